@@ -682,6 +682,8 @@ func main() {
 		prepare(os.Args[2], profile)
 	case "selftest":
 		os.Exit(cmdSelftest(os.Args[2:]))
+	case "suite":
+		os.Exit(cmdSuite())
 	default:
 		infra("unknown command %s", os.Args[1])
 	}
@@ -751,4 +753,49 @@ func raceSupplement(scratch string, seed int64, secs int) raceResult {
 		rr.report = "result mismatch under real parallel execution:\n" + strings.Join(res.Mismatches, "\n")
 	}
 	return rr
+}
+
+// cmdSuite is the semantics-preservation check of the instrumenter (DESIGN.md §7): the repository's
+// own test suite must pass on the fully instrumented copy (both profiles) with no scheduler installed.
+func cmdSuite() int {
+	bad := 0
+	for _, profile := range []string{"client", "codecs"} {
+		scratch := mkScratch()
+		prepare(scratch, profile)
+		// the client tests bind a fixed port: run them in a private network namespace when possible
+		script := "go1.26.8 test -tags verif -vet=off -count=1 ./... 2>&1"
+		cmd := exec.Command("unshare", "-rn", "sh", "-c", "ip link set lo up && "+script)
+		cmd.Dir = filepath.Join(scratch, "repo")
+		cmd.Env = env()
+		out, err := cmd.CombinedOutput()
+		if err != nil && !strings.Contains(string(out), "ok  ") {
+			cmd = exec.Command("sh", "-c", script)
+			cmd.Dir = filepath.Join(scratch, "repo")
+			cmd.Env = env()
+			out, err = cmd.CombinedOutput()
+		}
+		okLines, failLines := 0, 0
+		for _, l := range strings.Split(string(out), "\n") {
+			if strings.HasPrefix(l, "ok ") {
+				okLines++
+			}
+			if strings.HasPrefix(l, "FAIL") || strings.HasPrefix(l, "--- FAIL") {
+				failLines++
+			}
+		}
+		fmt.Printf("suite on instrumented copy (profile %s): %d packages ok, %d FAIL lines, err=%v\n", profile, okLines, failLines, err)
+		if err != nil || failLines > 0 || okLines == 0 {
+			tail := string(out)
+			if len(tail) > 3000 {
+				tail = tail[len(tail)-3000:]
+			}
+			fmt.Println(tail)
+			bad++
+		}
+		removeAll(scratch)
+	}
+	if bad > 0 {
+		return 2
+	}
+	return 0
 }
